@@ -265,6 +265,22 @@ fn snapshot_iteration_overflow() -> Option<String> {
     }
 }
 
+/// C06: a closure parameter that shadows a variable bound by the rule body must be rejected
+fn closure_shadowing() -> Option<String> {
+    let root = KeyPair::new();
+    let t = Biscuit::builder().fact("x(1)").unwrap().build(&root).unwrap();
+    let mut a = AuthorizerBuilder::new()
+        .check("check if x($p), [2].all($p -> $p == 2)").unwrap()
+        .policy("allow if true").unwrap()
+        .build(&t).unwrap();
+    let r = quiet(|| a.authorize().map(|_| ()));
+    match r {
+        Ok(Err(e)) if format!("{:?}", e).contains("ShadowedVariable") => None,
+        Ok(other) => Some(format!("check if x($p), [2].all($p -> $p == 2): the closure parameter shadows $p but authorize() returned {:?} instead of ShadowedVariable", other)),
+        Err(p) => Some(format!("closure shadowing: panic {}", p)),
+    }
+}
+
 /// run `case` in a child process; report how it ended (a panic inside an extern "C" function aborts the process)
 fn in_child(case: &str) -> Result<String, String> {
     let exe = std::env::current_exe().unwrap();
@@ -369,6 +385,7 @@ fn main() {
         "capi_public_key_serialize_secp256r1" | "capi_public_key_serialize_ed25519" | "capi_serialize_sealed" => capi_case(&case),
         "snapshot_iteration_underflow" => snapshot_iteration_underflow(),
         "snapshot_iteration_overflow" => snapshot_iteration_overflow(),
+        "closure_shadowing" => closure_shadowing(),
         "facts_over_budget_at_start" => facts_over_budget_at_start(),
         _ => { eprintln!("unknown case {}", case); std::process::exit(2) }
     };
